@@ -7,7 +7,7 @@
    in_subset  XPath/Subset.v  decidable; excludes exactly the inputs on which one of the classes (a)-(l) occurs *)
 From Delb.Base Require Import PyStr.
 From Delb.Tree Require Import ATree ITree.
-From Delb.XPath Require Import Ast Nav Eval Ref Subset Run EvalRef C06Witness.
+From Delb.XPath Require Import Ast Nav Eval Ref Subset Run EvalRef OrderFacts C06Witness.
 
 (* Full statement of DESIGN.md:  forall t ctx e nsmap, in_subset e -> NoDup (eval ...) /\ (forall n, In n (eval ...) <->
    In n (ref_eval (deviate e) ...)).  Proved as stated, with in_subset depending also on the tree and the context node
@@ -48,6 +48,15 @@ Proof.
   destruct (existsb is_doc o); [discriminate|]. destruct f; [discriminate|]. intro H. inversion H. apply dedup_NoDup_fst.
 Qed.
 Print Assumptions C06_each_node_once.
+
+(* in_document_order (the model of _sort_nodes_in_document_order): defined for tag results only (anything else is
+   NotImplementedError, as in the code); the same positions, strictly increasing in document order *)
+Theorem C06_order : forall l r, in_document_order l = Ok r ->
+  forallb is_tagnode l = true /\ sorted r = true /\ (forall p, In p (map fst r) <-> In p (map fst l)).
+Proof. exact in_document_order_sorted. Qed.
+Print Assumptions C06_order.
+Theorem C06_order_tags_only : forall l, forallb is_tagnode l = false -> in_document_order l = Crash NotImplementedError.
+Proof. exact in_document_order_refuses. Qed.
 
 (* the generated table of Axis generator methods (read from ast.py on every run) lists exactly the eleven
    generators d_axis mirrors *)
